@@ -37,6 +37,9 @@ class Clause:
     def __init__(self, name, props, text):
         self.name = name
         self.props = tuple(props)
+        # properties a failure of this clause INSIDE AN IMPLEMENTATION counts for (trait clauses of the dependency
+        # are counted once, in unit `deps`, but an impl that breaks them breaks these properties)
+        self.iprops = tuple(props)
         self.text = text.strip().rstrip(',')
 
 
@@ -622,7 +625,7 @@ def splice_fn(em, toks, fn, fc, ctx, marks):
             spec.append('\n    ensures')
             for c in ens:
                 cid = '%s#%s' % (ctx, c.name)
-                marks.append({'id': cid, 'fn': ctx, 'clause': c.name, 'props': list(c.props), 'text': c.text})
+                marks.append({'id': cid, 'fn': ctx, 'clause': c.name, 'props': list(c.props), 'iprops': list(getattr(c, 'iprops', c.props)), 'text': c.text})
                 spec.append('\n        /*@c:%s*/ %s,' % (cid, c.text))
             spec.append('\n    /*@c:-*/')
         if fc.extra_spec:
